@@ -96,10 +96,11 @@ def c03_writers(split, pp1, p1, pp2, p2, pp3, p3, pp4, p4):
         for i in range(n):
             if parent.get(f'x{i}') != 10 * (i + 1) + 5:
                 ok = False
-    # metadata of the node that carries the leaf site: only comparable when all sites sit on the leaf
-    if all(p == depth - 1 for p in pos[:n]):
+    # user metadata of the node that carries the sites: comparable when all sites sit on the same level
+    # (a leaf or an enclosing mapping) - combined under the same rule, no key lost
+    if len(set(pos[:n])) == 1:
         mnode = root
-        for lvl in range(depth):
+        for lvl in range(pos[0] + 1):
             mnode = mnode[KEYS[lvl]]
         md = mnode.ayns.metadata
         for i in range(n):
